@@ -33,7 +33,7 @@ Definition exact_prod (A B : index -> sval Z) (n : nat) : Z :=
     (map (fun a => zden (A (0 :: 0 :: a))%nat * zden (B (0 :: 0 :: msub [n] a))%nat) (splits [n])).
 
 Definition ref_base (A B : index -> sval Z) : list (sdesc Z) :=
-  [SBase (mkHead 1 1 1) (fun i => Ok (A i)); SBase (mkHead 1 1 1) (fun i => Ok (B i))].
+  [SBase (mkHead 1 1 1 [0%nat]) (fun i => Ok (A i)); SBase (mkHead 1 1 1 [0%nat]) (fun i => Ok (B i))].
 
 (* cauchy_dot_product(A, B, hermitian=h)[0, 0, 1] on fresh series *)
 Definition model_element (A B : index -> sval Z) (h : bool) (idx : index) : option (res pyerr (sval Z)) :=
